@@ -14,6 +14,33 @@ def pipe(ctx, verdict, cases, name="wkbenc"):
 PIPES = {"wkbenc": pipe}
 
 
+def long_cases(ctx):
+    """Coordinate arrays far longer than any internal chunk or buffer (hundreds to thousands of ordinates, lengths on both
+    sides of powers of two), FOLLOWED by more data: another ring, another member, and - in the stream rules - another
+    geometry. Decided like every other case (reference encoder / decoder in WKBObs)."""
+    import random
+    r = random.Random(ctx.seed * 17 + 4)
+    lens = [300] if ctx.quick else [129, 257, 300, 513, 1025]        # (TLC needs ~30 s per kilobyte-sized geometry)
+    out = []
+
+    def coords(n, s):
+        return [[r.randrange(1, 100) for _ in range(s)] for _ in range(n)]
+    for n in lens:
+        l = r.choice(["XY", "XYZ", "XYM", "XYZM"])
+        s = {"XY": 2, "XYZ": 3, "XYM": 3, "XYZM": 4}[l]
+        ls = dict(t="LS", l=l, srid=[], body=coords(n, s))
+        short = dict(t="LS", l=l, srid=[], body=coords(2, s))
+        ring = coords(n, s)
+        ring.append(ring[0][:])
+        gs = [ls,
+              dict(t="MLS", l=l, srid=[], body=[ls, short]),
+              dict(t="PG", l=l, srid=[], body=[ring, coords(3, s) + [[1] * s]]),
+              dict(t="GC", l=l, srid=[], body=[dict(t="MPT", l=l, srid=[], body=[dict(t="PT", l=l, srid=[], body=c) for c in coords(min(n, 300), s)]), short])]
+        for g in (gs[:2] if ctx.quick else gs):
+            out.append(dict(g=g, order=r.choice(["NDR", "XDR"]), flavor=r.choice(["wkb", "ewkb"])))
+    return out
+
+
 def run(ctx, verdict):
     cfg = "WKB_quick.cfg" if ctx.quick else "WKB_thorough.cfg"
     out, r = vlib.model_a(ctx, "WKBModel", cfg, ["CASE"], workers=8)
@@ -21,6 +48,10 @@ def run(ctx, verdict):
     vlib.note_cases(ctx, cases, nontrivial=lambda c: c["g"]["body"] != [])
     ctx.coverage_extra["model_a"] = [dict(cfg=cfg, cases=len(cases), states=r["distinct"])]
     pipe(ctx, verdict, cases)
+    lc = long_cases(ctx)
+    vlib.note_cases(ctx, lc)
+    ctx.coverage_extra["long_arrays"] = dict(cases=len(lc), max_points=max(len(c["g"]["body"]) for c in lc if c["g"]["t"] == "LS"))
+    pipe(ctx, verdict, lc, name="wkbenc")
     ctx.assumptions += ["SRIDs from a palette {none, 1, 4326, 2^31, 2^32-1}; ordinates from a palette of float64 bit "
                         "patterns incl. non-canonical NaNs; reader schedules: chunk sizes 1/2/3/7/mixed/as-asked, "
                         "data-with-EOF, zero-length deliveries; writer failing at every byte position",
